@@ -192,6 +192,13 @@ func Compile(originConf *Config, exprStr string) (*Expr, error) {
 		return nil, res.err
 	}
 
+	if conf.CompileOptions[ReportEvent] || conf.CompileOptions[Debug] {
+		// every node gets an event node, except the inlined operands of fast operators
+		if size := res.size*2 - countFastOperands(ast); size > math.MaxInt16 {
+			return nil, fmt.Errorf("expression cannot exceed a maximum of 32767 nodes (including event nodes), got: [%d]", size)
+		}
+	}
+
 	expr := buildExpr(conf, ast, res.size)
 
 	return expr, nil
@@ -474,6 +481,17 @@ func check(root *astNode) checkRes {
 	return checkRes{
 		size: size,
 	}
+}
+
+func countFastOperands(root *astNode) int {
+	if root.node.getNodeType() == fastOperator {
+		return len(root.children)
+	}
+	cnt := 0
+	for _, child := range root.children {
+		cnt += countFastOperands(child)
+	}
+	return cnt
 }
 
 func buildExpr(cc *Config, ast *astNode, size int) *Expr {
@@ -783,8 +801,8 @@ func calAndSetEventNode(e *Expr) {
 	var (
 		nodes          = e.nodes
 		size           = int16(len(nodes))
-		res            = make([]*node, 0, size*2)
-		parents        = make([]int16, 0, size*2)
+		res            = make([]*node, 0, int(size)*2)
+		parents        = make([]int16, 0, int(size)*2)
 		eventNodeIdxes = make([]int16, size)
 		realIdxes      = make([]int16, size)
 	)
